@@ -11,10 +11,10 @@ vf=/tmp/mut-$id-verif
 git -C /repo worktree add -q --detach "$wt" HEAD
 ( cd /repo && git ls-files --others --exclude-standard | while read f; do mkdir -p "$wt/$(dirname "$f")"; cp "$f" "$wt/$f"; done )
 if ! git -C "$wt" apply "$patch"; then echo "PATCH DOES NOT APPLY"; git -C /repo worktree remove --force "$wt"; exit 3; fi
-rsync -a --exclude .git --exclude 'build/run' --exclude replays /verif/ "$vf/"
+rsync -a --exclude .git --exclude 'build' --exclude replays /verif/ "$vf/"
 for p in "$@"; do
   echo "=== $p against $(basename "$patch")"
-  ( cd "$vf" && VERIF_REPO="$wt" timeout 1500 ./check "$p" 2>&1 | tail -${MUT_TAIL:-6}; echo "exit=$?" ) || true
+  ( cd "$vf" && VERIF_REPO="$wt" timeout 1500 ./check "$p" > "$vf/_out.txt" 2>&1; rc=$?; grep -a "VIOLATION\|KNOWN-FINDING" "$vf/_out.txt" | cut -c1-200; grep -a "^\[check\] $p" "$vf/_out.txt" | cut -c1-220; grep -a "broken:" "$vf/_out.txt" | head -${MUT_TAIL:-3} | cut -c1-300; echo "exit=$rc" ) || true
 done
 git -C /repo worktree remove --force "$wt"
 rm -rf "$vf"
